@@ -40,10 +40,14 @@ func (c *Conversation) processAKE(msgType byte, msg []byte) (toSend []messageWit
 		c.ake.state, toSendSingle, err = c.ake.state.receiveDHKeyMessage(c, msg)
 	case msgTypeRevealSig:
 		c.ake.state, toSendSingle, err = c.ake.state.receiveRevealSigMessage(c, msg)
-		toSendExtra, _ = c.maybeRetransmit()
+		if err == nil {
+			toSendExtra, _ = c.maybeRetransmit()
+		}
 	case msgTypeSig:
 		c.ake.state, toSendSingle, err = c.ake.state.receiveSigMessage(c, msg)
-		toSendExtra, _ = c.maybeRetransmit()
+		if err == nil {
+			toSendExtra, _ = c.maybeRetransmit()
+		}
 	default:
 		err = newOtrErrorf("unknown message type 0x%X", msgType)
 	}
